@@ -34,7 +34,7 @@ static const struct { const char *file, *type; int L; } KINDS[8] = {
 };
 
 static const char *o_exe, *o_fam, *o_mlimit;
-static int is_T, o_bad, nkinds, nvec;
+static int is_T, o_bad, nkinds, nvec, o_own;
 static long ninst;
 static OptVec vecs[900];
 
@@ -369,6 +369,67 @@ static void run_unreadable (const RefLP * L, int kind)
 	free (r.err); sb_free (&d);
 }
 
+
+/* ------------------------------------------------------------------ own=1: the harness writes the input file itself
+ * (plain LP or fixed-free MPS text, no library code involved) under names that are legal but unusual: what esolver prints
+ * is then compared with names the library never produced.  Returns 0 when the instance cannot be expressed (empty row,
+ * unused column, ranged row in LP). */
+static const char *ODDC[4] = { "pct%d", "sh%%re", "x%5.2fy", "v.1{a}" };
+static const char *ODDR[4] = { "r%x", "c%%1", "lim&2", "row~3" };
+static void put_q (FILE * f, const mpq_t q) { char *t = q_str (q); fputs (t, f); free (t); }
+static int own_render (const RefLP * L, const char *path, int mps)
+{
+	if (L->n > 4 || L->m > 4 || L->m == 0) return 0;
+	for (int r = 0; r < L->m; r++) { int nz = 0; for (int j = 0; j < L->n; j++) nz += mpq_sgn (REF_A (L, r, j)) != 0; if (!nz) return 0; if (L->sense[r] == 'R' && !mps) return 0; }
+	for (int j = 0; j < L->n; j++) { int used = mpq_sgn (L->obj[j]) != 0; for (int r = 0; r < L->m; r++) used |= mpq_sgn (REF_A (L, r, j)) != 0; if (!used) return 0; }
+	FILE *f = fopen (path, "w");
+	if (!f) return 0;
+	mpq_t t; mpq_init (t);
+	if (!mps) {
+		fprintf (f, "%s\n obj:", L->objsense == REF_MAX ? "Maximize" : "Minimize");
+		for (int j = 0; j < L->n; j++) if (mpq_sgn (L->obj[j])) { fputs (mpq_sgn (L->obj[j]) < 0 ? " - " : " + ", f); mpq_abs (t, L->obj[j]); put_q (f, t); fprintf (f, " %s", L->cname[j]); }
+		fprintf (f, "\nSubject To\n");
+		for (int r = 0; r < L->m; r++) {
+			fprintf (f, " %s:", L->rname[r]);
+			for (int j = 0; j < L->n; j++) if (mpq_sgn (REF_A (L, r, j))) { fputs (mpq_sgn (REF_A (L, r, j)) < 0 ? " - " : " + ", f); mpq_abs (t, REF_A (L, r, j)); put_q (f, t); fprintf (f, " %s", L->cname[j]); }
+			fprintf (f, " %s ", L->sense[r] == 'L' ? "<=" : L->sense[r] == 'G' ? ">=" : "="); put_q (f, L->rhs[r]); fputc ('\n', f);
+		}
+		fprintf (f, "Bounds\n");
+		for (int j = 0; j < L->n; j++) {
+			if (L->loinf[j] && L->upinf[j]) fprintf (f, " %s free\n", L->cname[j]);
+			else {
+				if (L->loinf[j]) fprintf (f, " -inf <= %s\n", L->cname[j]); else if (mpq_sgn (L->lo[j])) { fputc (' ', f); put_q (f, L->lo[j]); fprintf (f, " <= %s\n", L->cname[j]); }
+				if (!L->upinf[j]) { fprintf (f, " %s <= ", L->cname[j]); put_q (f, L->up[j]); fputc ('\n', f); }
+			}
+		}
+		fprintf (f, "End\n");
+	} else {
+		fprintf (f, "NAME own\nOBJSENSE\n %s\nROWS\n N obj\n", L->objsense == REF_MAX ? "MAX" : "MIN");
+		for (int r = 0; r < L->m; r++) fprintf (f, " %c %s\n", L->sense[r] == 'R' ? 'G' : L->sense[r], L->rname[r]);
+		fprintf (f, "COLUMNS\n");
+		for (int j = 0; j < L->n; j++) {
+			if (mpq_sgn (L->obj[j])) { fprintf (f, " %s obj ", L->cname[j]); put_q (f, L->obj[j]); fputc ('\n', f); }
+			for (int r = 0; r < L->m; r++) if (mpq_sgn (REF_A (L, r, j))) { fprintf (f, " %s %s ", L->cname[j], L->rname[r]); put_q (f, REF_A (L, r, j)); fputc ('\n', f); }
+		}
+		fprintf (f, "RHS\n");
+		for (int r = 0; r < L->m; r++) if (mpq_sgn (L->rhs[r])) { fprintf (f, " rhs %s ", L->rname[r]); put_q (f, L->rhs[r]); fputc ('\n', f); }
+		int anyr = 0; for (int r = 0; r < L->m; r++) anyr |= L->sense[r] == 'R';
+		if (anyr) { fprintf (f, "RANGES\n"); for (int r = 0; r < L->m; r++) if (L->sense[r] == 'R') { fprintf (f, " rng %s ", L->rname[r]); put_q (f, L->range[r]); fputc ('\n', f); } }
+		fprintf (f, "BOUNDS\n");
+		for (int j = 0; j < L->n; j++) {
+			if (L->loinf[j] && L->upinf[j]) fprintf (f, " FR bnd %s\n", L->cname[j]);
+			else {
+				if (L->loinf[j]) fprintf (f, " MI bnd %s\n", L->cname[j]); else if (mpq_sgn (L->lo[j])) { fprintf (f, " LO bnd %s ", L->cname[j]); put_q (f, L->lo[j]); fputc ('\n', f); }
+				if (!L->upinf[j]) { fprintf (f, " UP bnd %s ", L->cname[j]); put_q (f, L->up[j]); fputc ('\n', f); }
+			}
+		}
+		fprintf (f, "ENDATA\n");
+	}
+	mpq_clear (t);
+	fclose (f);
+	return 1;
+}
+
 static void run_instance (long inst, int kind, const OptVec * v)
 {
 	char label[128] = "", why[300];
@@ -379,8 +440,17 @@ static void run_instance (long inst, int kind, const OptVec * v)
 	Ctx c; memset (&c, 0, sizeof c); sb_init (&c.dump);
 	clean_outputs ();
 	for (int i = 0; i < 8; i++) unlink (KINDS[i].file);
+	mpq_QSprob p = NULL;
+	if (o_own) {
+		/* the harness writes the file; the model is the instance itself under odd names */
+		for (int j = 0; j < L0->n && j < 4; j++) ref_set_cname (L0, j, ODDC[j]);
+		for (int r = 0; r < L0->m && r < 4; r++) ref_set_rname (L0, r, ODDR[r]);
+		if (kind > 1 || !own_render (L0, KINDS[kind].file, kind == 1)) { if (first) STAT ("skipped_not_expressible"); goto DONE; }
+		L = ref_clone (L0);
+		goto HAVE_MODEL;
+	}
 	/* the LIBRARY writes the problem file ... */
-	mpq_QSprob p = qsx_build (L0, ROUTE_LOAD, 0);
+	p = qsx_build (L0, ROUTE_LOAD, 0);
 	int wrote = 0;
 	if (p) { qsx_log_reset (); wrote = mpq_QSwrite_prob (p, KINDS[kind].file, KINDS[kind].type) == 0; mpq_QSfree_prob (p); }
 	struct stat sb;
@@ -394,6 +464,7 @@ static void run_instance (long inst, int kind, const OptVec * v)
 	L = qsx_readback (p, why, sizeof why);
 	mpq_QSfree_prob (p);
 	if (!L) { viol ("HARNESS", "readback-failed", "cannot read the re-read problem back through the API: %s", why); goto DONE; }
+HAVE_MODEL:
 	c.L = L; c.wf = ref_wellformed (L); c.kindfile = KINDS[kind].file;
 	ref_dump (&c.dump, L, 1);
 	T = ref_solve (L); c.T = T;
@@ -567,6 +638,7 @@ static void es_init (void)
 	o_fam = opt_str ("fam", "S0q1");
 	o_mlimit = opt_str ("mlimit", "");
 	o_bad = (int) opt_int ("bad", 0);
+	o_own = (int) opt_int ("own", 0);
 	is_T = !strcmp (o_fam, "T");
 	if (!is_T) lpfam_select (o_fam);
 	ninst = is_T ? tfam_count () : lpfam_count ();
